@@ -25,7 +25,7 @@ chk("C08",
     "property-level set. Exhaustive inside the small scope, which is where off-by-one/tie/stale-state bugs live.",
     "Trusted: TLC, the transcription of the property in spec/PeakRules.tla, numpy float equality on a linear grid. "
     "Scope is bounded (N<=7, 3 levels); noise-like long curves are covered only through the same case analysis.",
-    "TLA+ spec (Peaks/PeakRules) model-checked with TLC; every TLC state replayed into the real objects", "DESIGN.md#c08")
+    "TLA+ spec (Peaks/PeakRules) model-checked with TLC; every TLC state replayed into the real objects; recorded sessions over result objects validated by TLC against TraceResultHeap (only the target changes, read-only operations change nothing)", "DESIGN.md#c08")
 
 HV_NOTE = ("Trusted: TLC; the transcription of the estimators / peak rules / FDWRA in spec/{ExactStats,PeakRules,HvsrObject}.tla; "
            "the value encodings (frequency j*0.02 Hz or e^(j/q), amplitude = level or e^(level/q)) and rtol 1e-9 when an exact "
@@ -55,13 +55,13 @@ chk("C11",
     "azimuths irrelevant, mean = mean of azimuth means; one azimuth = traditional) and exports the exact weighted estimators; the "
     "graph is replayed on real HvsrAzimuthal objects (unequal per-azimuth counts, peak-less and all-flat azimuths included) and all "
     "weighted accessors are compared in every state.",
-    HV_NOTE, "TLA+ state machine (HvsrObject, NA=2) model-checked with TLC; exported graph replayed on real HvsrAzimuthal objects", "DESIGN.md#c11")
+    HV_NOTE, "TLA+ state machine (HvsrObject, NA=2) model-checked with TLC; exported graph replayed on real HvsrAzimuthal objects; recorded sessions over result objects validated by TLC against TraceResultHeap (only the target changes, read-only operations change nothing)", "DESIGN.md#c11")
 chk("C12",
     "TLC checks MetaRangeCurrent (the range a reader re-searches with equals the range the peaks were computed with) in every "
     "reachable state; every state of the exported graphs is reached on real traditional / azimuthal objects, written and read back: "
     "curves bit for bit, masks, range, peaks, all statistics (==), derived file columns against the object and the exact value; "
     "real states whose meta range is stale are round-tripped too; random diffuse-field objects.",
-    HV_NOTE, "TLA+ state machine model-checked with TLC; every reached real state written/read and compared", "DESIGN.md#c12")
+    HV_NOTE, "TLA+ state machine model-checked with TLC; every reached real state written/read and compared; recorded sessions over result objects validated by TLC against TraceResultHeap (only the target changes, read-only operations change nothing)", "DESIGN.md#c12")
 
 chk("C13",
     "TLC enumerates every small window list (2 windows x 3 components over 4-5 STA chunk patterns, 6 component subsets, 4 limit "
@@ -80,7 +80,7 @@ chk("C20",
     "the artists (accepted/rejected lines, mean and +-1 std curves, peak markers, fn band, summary table incl. the period row, "
     "azimuthal peak markers) are compared with the state and with the exact statistics exported by TLC.",
     HV_NOTE + " Artists are compared as data (style class by colour/width/marker); pixels are out of scope.",
-    "TLC-generated behaviours replayed on real objects; read-only verdict by TLC trace validation; artists vs exact statistics", "DESIGN.md#c20")
+    "TLC-generated behaviours replayed on real objects; read-only verdict by TLC trace validation; artists vs exact statistics; recorded sessions over result objects validated by TLC against TraceResultHeap (only the target changes, read-only operations change nothing)", "DESIGN.md#c20")
 
 chk("C10",
     "TLC checks the tiling lemmas (windows start on j*k, share their boundary sample, span k+1 samples, only the last may be one "
